@@ -112,22 +112,22 @@ CHECKS = {
 # rules added during the seeded-variant rounds (DESIGN.md 8.3, 8.7)
 EXTRA = {
  "C01": " Also: totality on the domain (no failure exit of EncodeEncrypt/encryptMsg/DecodeDecrypt/decryptMsg is reachable for a fully keyed SA, an encodable message and a genuine datagram; length tests refuted by linear arithmetic over the SK body shape IV|>=1 block|checksum) and Reset-before-Write typestate of calculateIntegrity. The plain-codec rule set of C03 is included under C01.codec.* (header and inner chain pass through the plain codec on both ends), and so are the PKCS#7 padding rules and the AES-CBC Encrypt / Decrypt shape rules of C06 / C10 (the protected round trip runs through them). Without SA keys the same entry points are total on the plain domain (any message of the encodable domain, the empty payload list - a 28-octet datagram - included, with or without a pre-parsed header).",
- "C03": " Also: nested records behind an interface field occupy the same span under the same conditions on both sides; the decoder rejects on the value of a message field only where the encoder refuses that value too or the field is structural (value-guard agreement); AKA' words-to-octets scaling evaluated without wrap-around for the domain. Every pointer a decoder collects in a loop points to an object allocated in the same iteration (decoded list elements are distinct objects). A decoder's constant test of the remaining input length lets the shortest in-domain encoding of the record at that cursor pass (min_octets of the reference layout). A way round the chain walker's loop that does not keep the decoded payload lies behind the test of the critical bit (a payload with an empty body is decoded like any other). The EAP-AKA' decoder's constant tests of the attribute length octet let pass the length octets the encoder produces for the value sizes the setter accepts, per attribute type.",
+ "C03": " Also: nested records behind an interface field occupy the same span under the same conditions on both sides; the decoder rejects on the value of a message field only where the encoder refuses that value too or the field is structural (value-guard agreement); AKA' words-to-octets scaling evaluated without wrap-around for the domain. Every pointer a decoder collects in a loop points to an object allocated in the same iteration (decoded list elements are distinct objects). A decoder's constant test of the remaining input length lets the shortest in-domain encoding of the record at that cursor pass (min_octets of the reference layout). A way round the chain walker's loop that does not keep the decoded payload lies behind the test of the critical bit (a payload with an empty body is decoded like any other). The EAP-AKA' decoder's constant tests of the attribute length octet let pass the length octets the encoder produces for the value sizes the setter accepts, per attribute type. Decoding is a function of the octets: no branch of a decode method is decided by a field of the object decoded into that the same call has not stored first, and no list is re-sliced into itself.",
  "C05": " Also: nested-dispatch span vs the reference; AKA' words-to-octets scaling without wrap-around. Record stride: a decoder walking a list advances by exactly the element's extent in the reference layout on every path round the loop; the encoder emits no octets that are neither field nor nested record; EAP-AKA' decoder and setter cases are classified by the meaning they give octets 2-3 (bit count / octet count / reserved) and compared with a per-type reference table. The header's next-payload octet is recomputed from the payload list on every path before it is encoded (0 for an empty list).",
  "C06": " Also: totality on the domain of the protect/unprotect path (an empty inner payload list and every legal length are accepted).",
  "C07": " Also: totality on the domain: every failure exit of GenerateKeyForIKESA / NewIKESAKey (through PrfPlus and NewCrypto) is unreachable for nonces and secrets of 1..512 octets and a complete registered suite. DH public values / shared secrets have the fixed-length left-padded shape SKEYSEED is computed from (dh-secret-shape).",
  "C08": " Also: totality on the domain: every failure exit of GenerateKeyForChildSA is unreachable for any nonce (including empty), with or without integrity.",
- "C11": " Also: every registry lookup in the SA constructors is controlled only by nil tests and list lengths, never by the content of the transform being looked up.",
- "C12": " Also: nested-dispatch conditions agree on both sides; the AKA' encoder pads to the declared attribute length. Every pointer a decoder collects in a loop points to an object allocated in the same iteration. EAP-AKA' reference classes (meaning of octets 2-3 per attribute type) for canonical datagrams of an independent encoder.",
+ "C11": " Also: every registry lookup in the SA constructors is controlled only by nil tests and list lengths, never by the content of the transform being looked up. ToProposal is a function of the SA's current descriptors (no SA field or package variable written, only the *Info fields read).",
+ "C12": " Also: nested-dispatch conditions agree on both sides; the AKA' encoder pads to the declared attribute length. Every pointer a decoder collects in a loop points to an object allocated in the same iteration. EAP-AKA' reference classes (meaning of octets 2-3 per attribute type) for canonical datagrams of an independent encoder. Decoding is a function of the octets (no branch on state an earlier call left in the object decoded into; no list re-sliced into itself).",
  "C14": " Also: the setter accepts every value size of the domain (RAND/AUTN/MAC 16, KDF 2, RES 4..16, KDF_INPUT 0..300, CHECKCODE 0/20/32: no error exit reachable, by linear arithmetic per instance); nested-dispatch; value-guard agreement; words-to-octets scaling. EAP-AKA' reference classes: octets 2-3 are a bit count exactly for AT_RES / AT_KDF_INPUT, zero for the reserved types, on the decoder and the setter side.",
- "C15": " Also: totality on the domain: no failure exit of CalcEapAkaPrimeAtMAC (through initMAC/SetAttr/setAttr with a 16-octet value) is reachable for any subtype, attribute subset and key. EAP-AKA' reference classes (which attribute types carry a bit count in octets 2-3) on the decoder and setter side, so that packets of an independent encoder are read as sent. The decoder stores every attribute it consumes (map update dominates every back edge of the attribute loop); the setter keeps a copy of the value.",
+ "C15": " Also: totality on the domain: no failure exit of CalcEapAkaPrimeAtMAC (through initMAC/SetAttr/setAttr with a 16-octet value) is reachable for any subtype, attribute subset and key. EAP-AKA' reference classes (which attribute types carry a bit count in octets 2-3) on the decoder and setter side, so that packets of an independent encoder are read as sent. The decoder stores every attribute it consumes (map update dominates every back edge of the attribute loop); the setter keeps a copy of the value. What the receiver decoded is a function of the received octets, not of attributes an earlier packet left in a reused object.",
  "C18": " Also: the reader argument of io.ReadFull counts as written (stateful readers), and an interface method implemented outside the module invoked on a global-derived object is reported unless the callee is in the frozen read-only table. Key derivation and Diffie-Hellman never write through, copy into or append onto memory derived from a []byte parameter (also after it was kept in the SA object).",
- "C19": " Also: a builder passes memory it did not allocate to no module function with a non-empty mod-set (the container is only extended). Arguments that fit are accepted: no failure exit of BuildEAP5GNAS / BuildNotify5G_QOS_INFO is reachable for a NAS PDU of 1..65535 octets / a QFI list of 0..250 entries with any flags.",
+ "C19": " Also: a builder passes memory it did not allocate to no module function with a non-empty mod-set (the container is only extended). Arguments that fit are accepted: no failure exit of BuildEAP5GNAS / BuildNotify5G_QOS_INFO is reachable for a NAS PDU of 1..65535 octets / a QFI list of 0..250 entries with any flags. A builder extends its container on every path to a normal return and on no path to an error return.",
  "C20": " Also: header bookkeeping fields are stored on every path before they are read (no value left by an earlier Decode/Encode reaches the output). Protect builds the new payload list from nil (no append into the old list's storage).",
- "C02": " The crash-freedom proof covers every function reachable from DecodeDecrypt (header parser, outer chain walker and every payload decoder run before the checksum is verified). A datagram that ends behind a header announcing an Encrypted payload is refused (no success return of DecodeDecrypt reachable with an empty payload list and NextPayload = SK).",
+ "C02": " The crash-freedom proof covers every function reachable from DecodeDecrypt (header parser, outer chain walker and every payload decoder run before the checksum is verified). A datagram that ends behind a header announcing an Encrypted payload is refused (no success return of DecodeDecrypt reachable with an empty payload list and NextPayload = SK). Every derivation rebuilds the keyed objects that verify and decrypt (each binding store lies on every path to the successful return).",
  "C09": " Also: nothing outside init writes memory reachable from the package-level group descriptors (alias analysis; math/big receivers count as written).",
  "C16": " Also: totality on the domain: no failure exit of EapAkaPrimePRF is reachable for IK', CK' of 1..64 octets and an identity of 0..255 octets (the test of the derived stream's length is decided by the round count of the shape rule).",
- "C13": " Also: no error exit on the decode path depends on a payload type code (forward dependence from header octet 16, octet 0 of the generic header, the walker's first-type argument and the NextPayload fields). The walker's test of the remaining length lets a bare 4-octet generic header pass (an unsupported payload with an empty body, also as the last one).",
+ "C13": " Also: no error exit on the decode path depends on a payload type code (forward dependence from header octet 16, octet 0 of the generic header, the walker's first-type argument and the NextPayload fields). The walker's test of the remaining length lets a bare 4-octet generic header pass (an unsupported payload with an empty body, also as the last one). Whether a chain is accepted does not depend on what an earlier decode left in the message object.",
 }
 THOROUGH = " Thorough tier: additionally replays every seeded faulty variant of this property (seeded/<id>-*) on a scratch copy of the current tree and requires it to be reported (exit 2 'SENSITIVITY-LOST' otherwise)"
 BCE = "; and cross-checks the prover's site enumeration against the compiler's unproven bounds checks (-d=ssa/check_bce)"
